@@ -28,14 +28,18 @@ theorem step_connect_ok (s s' : State) (t c x : Nat) (od : Bool) (h : stepCaller
 
 theorem step_visT (s s' : State) (t c : Nat) (e : Ev) (h : stepCaller s t c e = some s') (hid : s.cfg.ident = [])
     (hp : (s.callers c).pc = .visT) :
-    (∃ x, e = .isconn x true) ∧
+    ((∃ x, e = .isconn x true) ∨ (∃ x, e = .drop x)) ∧
       (s.lastError = true → ∀ n r, s.cbsReg = n :: r → (s'.callers c).pc = .cbs (n :: r)) := by
   cases e <;> simp only [stepCaller, hp] at h <;> try (simp at h)
-  obtain ⟨hv, rfl⟩ := h
-  subst hv
-  refine ⟨⟨_, rfl⟩, fun hle n r hreg => ?_⟩
-  rw [setC_same, startIdent_ni' _ _ hid]
-  simp [afterIdent, hle, hreg]
+  · obtain ⟨⟨hv, _⟩, rfl⟩ := h
+    subst hv
+    refine ⟨Or.inl ⟨_, rfl⟩, fun hle n r hreg => ?_⟩
+    rw [setC_same, startIdent_ni' _ _ hid]
+    simp [afterIdent, hle, hreg]
+  · obtain ⟨_, rfl⟩ := h
+    refine ⟨Or.inr ⟨_, rfl⟩, fun hle n r hreg => ?_⟩
+    rw [setC_same, startIdent_ni _ _ hid]
+    simp [afterIdent, hle, hreg]
 
 theorem step_in_cbs (s s' : State) (t c n : Nat) (rest : List Nat) (e : Ev) (h : stepCaller s t c e = some s')
     (hp : (s.callers c).pc = .cbs (n :: rest)) :
